@@ -106,7 +106,11 @@ def validate(cases):
 
 def scenarios(tier, seed):
     sh = core.spec_hash("Rat", "PPRefGas", "GenGas")
-    small = core.cached("gassmall" + sh, lambda: gen(G_SMALL))
+    if tier == "quick":
+        small = core.cached("gassmall1" + sh, lambda: gen(dict(G_SMALL, MaxSteps="= 1")))
+        small += core.cached("gassmall2s%d" % seed + sh, lambda: gen(G_SMALL, simulate="num=200", depth=4, seed=seed + 77))
+    else:
+        small = core.cached("gassmall" + sh, lambda: gen(G_SMALL))
     big = []
     for steps, num in ((3, 80), (4, 120), (5, 120)):
         n = num if tier == "quick" else num * 10
